@@ -18,7 +18,7 @@ for mp in sorted(glob.glob("/verif/seeded/S-*/meta.json")):
     else:
         first = "not by {}".format(p) + (" quick" if m.get("notes") else "")
     others = ", ".join(k for k in sorted(det) if k != p) or "-"
-    if len(m.get("exit_codes", {})) <= 1:
+    if len(m.get("exit_codes", {})) <= 1 and m.get("round", 1) >= 4:
         others = "(own check only re-run)" if others == "-" else others
     print("| {} | {} | {} | {} |".format(m["id"], m["change"][:150].replace("|", "/"), first, others))
 print()
